@@ -10,9 +10,10 @@ from concurrent.futures import ThreadPoolExecutor
 from .. import lib
 
 THROW = {"int": "throw(1)", "string": 'throw("s")', "rt": 'throw_runtime("x")', "oor": "throw_range()", "logic": "throw_logic()",
-         "badcast": "throw_badcast()", "ee": "throw_ee()", "user": "throw_user()"}
+         "badcast": "throw_badcast()", "ee": "throw_ee()", "user": "throw_user()",
+         "srt": 'throw(runtime_error("x"))', "sbase": "throw(BaseC())", "sder": "throw(DerivedC())", "dyn": "throw(MyErr())"}
 FRAMES = ["direct", "def", "lambda", "method", "bind", "for_each", "attr"]
-PRELUDE = ("class ThrowerK { def ThrowerK() { }; def go(f) { f() } }; global thrower_obj = ThrowerK(); "
+PRELUDE = ("class MyErr { def MyErr() { } }; class ThrowerK { def ThrowerK() { }; def go(f) { f() } }; global thrower_obj = ThrowerK(); "
            "global attr_obj = Dynamic_Object(); def call_it(f) { f() }; 0")
 _site = [0]
 
@@ -57,7 +58,8 @@ def print_stmts(stmts, frame):
 def expected_outcome(esc):
     return {"none": ("val", None, None), "ret": ("val", "int:77", None), "int": ("bv", "int:1", None), "string": ("bv", 'string:"s"', None),
             "rt": ("ex", None, "std::runtime_error"), "oor": ("ex", None, "std::out_of_range"), "logic": ("ex", None, "std::logic_error"),
-            "badcast": ("ex", None, "std::bad_cast"), "ee": ("ee", None, None), "user": ("other", None, "vh::UserEx")}[esc]
+            "badcast": ("ex", None, "std::bad_cast"), "ee": ("ee", None, None), "user": ("other", None, "vh::UserEx"),
+            "srt": ("bv", "<runtime_error>", None), "sbase": ("bv", "<BaseC>", None), "sder": ("bv", "<DerivedC>", None), "dyn": ("bv", "obj:MyErr{}", None)}[esc]
 
 
 def shape(prog):
@@ -90,7 +92,7 @@ def run(ck, tier, seed):
         ck.notes.append(f"refinement evaluated on {m.group(1)} programs; {m.group(2)} disagreements, all throwing a non-std C++ type (known finding)")
     if not res.ok:
         ck.violation("model:refinement", f"the transcription of Try_AST_Node does not refine the reference: {res.violation}", res.output[-3000:])
-    for cfg in ("ExceptionsM_pinned1", "ExceptionsM_pinned2", "ExceptionsM_pinned3"):
+    for cfg in ("ExceptionsM_pinned1", "ExceptionsM_pinned2", "ExceptionsM_pinned3", "ExceptionsM_pinned4"):
         r2 = lib.tlc("ExceptionsM", cfg, workers=1, timeout=900)
         if r2.ok:
             raise lib.Infra(f"sanity: {cfg} must be refuted by TLC, it was not")
@@ -103,7 +105,7 @@ def run(ck, tier, seed):
         out = os.path.join(work, f"exc.{k}.ndjson")
         name = f"ExceptionsExport_run_{os.getpid()}_{k}"
         with open(os.path.join(lib.SPEC, name + ".cfg"), "w") as f:
-            f.write(f"INIT Init\nNEXT Next\nCONSTANTS\n  RethrowUnmatched = TRUE\n  FinallyAlways = TRUE\n  ObjectMatch = TRUE\n  ShardK = {k}\n  ShardN = {shards}\n")
+            f.write(f"INIT Init\nNEXT Next\nCONSTANTS\n  RethrowUnmatched = TRUE\n  FinallyAlways = TRUE\n  ObjectMatch = TRUE\n  ObjectMatchValues = TRUE\n  ShardK = {k}\n  ShardN = {shards}\n")
         try:
             r = lib.tlc("ExceptionsExport", name, workers=1, env={"OUT": out}, timeout=900, heap="3g")
         finally:
@@ -151,11 +153,11 @@ def run(ck, tier, seed):
             ck.violation(key, f"{bad}; program: {src}", {"program": src, "frame": frame, "expected": exp, "observed": s})
         elif o["steps"][2].get("v") != "int:2":
             ck.violation("after:" + shape(rec["prog"]), f"engine unusable after {src}: {o['steps'][2]}", {"program": src})
-    ck.rule = ("every program of the Exceptions.tla family (15,870: one try x 8 thrown kinds x clause lists of length <= 2 over 8 clause types x "
+    ck.rule = ("every program of the Exceptions.tla family (one try x 12 thrown kinds - 6 thrown by C++ functions, 6 script values incl. runtime_error, a registered base/derived pair and a script class - x clause lists of length <= 2 over 11 clause types x "
                "4 handler forms x 3 finally forms; nested tries; no-throw and return bodies" + (", a seeded 4000 in quick" if quick else "") +
                "), throw site rotated over 7 frame kinds; distinct = distinct (marker trace, escaping kind)")
     ck.sample({"program": byid[cases[0]["id"]][1], "expected": byid[cases[0]["id"]][0]["expect"]})
     ck.sample({"program": byid[cases[-1]["id"]][1], "expected": byid[cases[-1]["id"]][0]["expect"]})
-    ck.assumptions += ["thrown kinds: script int/string, C++ runtime_error/out_of_range/logic_error/bad_cast/eval_error and a non-std struct",
+    ck.assumptions += ["thrown kinds: script int, string, runtime_error value, BaseC/DerivedC values, script class instance; C++ runtime_error/out_of_range/logic_error/bad_cast/eval_error and a non-std struct",
                        "guarded catch clauses and exception_specification handlers are not part of the family"]
     lib.rm(work)
